@@ -310,7 +310,9 @@ class SimpleGADriver(Driver):
 
         # Size design variables.
         desvars = self._designvars
-        desvar_vals = self.get_design_var_values()
+        # the algorithm works on unscaled values in the design variables' units: the bounds below are
+        # the declared ones and _set_design_var takes unscaled values.
+        desvar_vals = self.get_design_var_values(driver_scaling=False)
 
         count = 0
         for name, meta in desvars.items():
